@@ -17,7 +17,8 @@ RULE = (
     "missing BLOB size and format - also with no payload at all -, no children, duplicate children, valid and unknown elements mixed, absent values, message kinds "
     "a client should not send - also def*/set*Vector naming elements the property does not have -, getProperties/enableBLOB for unknown targets) x every target vector kind x every insertion position "
     "in a session of valid traffic x transport {TCP handler, TTY handler, direct Router.process_message} x delivery of the hostile "
-    "message {one read; two reads cut after the first '>' or 3 characters before the end (TCP); one line per element (TTY)}; 'values' lets Hypothesis "
+    "message {one read; two reads cut after the first '>' or 3 characters before the end (TCP); one line per element (TTY)} x "
+    "log forwarding to the clients (indi.logging.Handler on the 'indi' logger) {off, on}; 'values' lets Hypothesis "
     "fill names, values and positions. A second driver of the same server snoops on the target device (Driver.snoop_device), so "
     "whatever a hostile client makes the router forward also reaches a mirror inside the server process. Oracle: nothing escapes message handling; the sender is still registered with its writer "
     "open and its handler task running; device snapshots differ from before only at validly named elements and only to the "
@@ -164,7 +165,22 @@ def run_case(case):
     from indi.message import IndiMessage
 
     s = session.Session(specs=[session.SIMPLE_SPEC, session.SNOOPER_SPEC])
+    log_handler = None
     try:
+        if case.get("logfwd"):
+            # the server forwards its log records to the clients (indi.logging.Handler), as the example servers do:
+            # whatever the library logs about a rejected message then runs through message routing as well
+            import logging
+
+            from indi.logging import Handler as _LogForward
+
+            log_handler = _LogForward(s.net.router)
+            lg = logging.getLogger("indi")
+            log_handler._verif_saved = (lg.level, lg.propagate, logging.root.manager.disable)
+            lg.addHandler(log_handler)
+            lg.setLevel(logging.WARNING)
+            lg.propagate = False
+            logging.disable(logging.NOTSET)
         transport = case["transport"]
         drv = s.dep.drivers[0]
         # a second driver in the same server process follows DEV (Driver.snoop_device): it is served by the same router
@@ -309,6 +325,14 @@ def run_case(case):
             raise Failure("bystander-not-served", where)
         return at < len(VALID_STEPS)
     finally:
+        if log_handler is not None:
+            import logging
+
+            lg = logging.getLogger("indi")
+            lg.removeHandler(log_handler)
+            lg.setLevel(log_handler._verif_saved[0])
+            lg.propagate = log_handler._verif_saved[1]
+            logging.disable(log_handler._verif_saved[2])
         s.close()
 
 
@@ -326,7 +350,7 @@ def check_block(case):
     for entry, xml, allowed, accepts in catalogue(case["target"]):
         for at in range(len(VALID_STEPS) + 1):
           for split in {"tcp": (None, "gt1", "late"), "tty": (None, "lines"), "direct": (None,)}[case["transport"]]:
-            sub = {"transport": case["transport"], "hostile": xml, "allowed": {"/".join(k): v for k, v in allowed.items() if k != "required"}, "required": list(allowed["required"]) if "required" in allowed else None, "accepts": accepts, "at": at, "entry": entry, "target": case["target"], "split": split}
+            sub = {"transport": case["transport"], "hostile": xml, "allowed": {"/".join(k): v for k, v in allowed.items() if k != "required"}, "required": list(allowed["required"]) if "required" in allowed else None, "accepts": accepts, "at": at, "entry": entry, "target": case["target"], "split": split, "logfwd": bool(case.get("logfwd"))}
             try:
                 r = run_case(sub)
             except Failure as f:
@@ -339,7 +363,7 @@ def check_block(case):
             n += 1
             nt += bool(r)
             counts[entry] = counts.get(entry, 0) + 1
-    return Info(n_eval=n, n_nontrivial=nt, label_counts={case["transport"]: n, "target-" + case["target"]: n})
+    return Info(n_eval=n, n_nontrivial=nt, label_counts={case["transport"]: n, "target-" + case["target"]: n, "log-forwarding" if case.get("logfwd") else "no-log-forwarding": n})
 
 
 # Hypothesis: names / values / kinds drawn freely (well-formed, parser-acceptable or not)
@@ -359,7 +383,7 @@ def generated_hostile(draw):
             text = draw(st.sampled_from([VALID[k], "Off", "On", "1:30", "-0:30:00", "1e3", "x", None, "9" * 30, "1e999", "-1e400", "1e308", "9" * 400, "0.000000000000000000001", "1e-400"]) | gen.stripped_text(3))
             children.append(one(k, draw(el_st), text))
     xml = newvec(k, draw(name_st), draw(vec_st), children)
-    return {"transport": draw(st.sampled_from(["tcp", "tty", "direct"])), "hostile": xml, "allowed": {"*": "*"}, "accepts": False, "at": draw(st.integers(0, 4)), "split": draw(st.sampled_from([None, None, "gt1", "late", "lines"]))}
+    return {"transport": draw(st.sampled_from(["tcp", "tty", "direct"])), "hostile": xml, "allowed": {"*": "*"}, "accepts": False, "at": draw(st.integers(0, 4)), "split": draw(st.sampled_from([None, None, "gt1", "late", "lines"])), "logfwd": draw(st.booleans())}
 
 
 def check_generated(case):
@@ -383,6 +407,7 @@ def blocks():
     for target in TARGETS:
         for transport in ("tcp", "tty", "direct"):
             yield {"target": target, "transport": transport}
+            yield {"target": target, "transport": transport, "logfwd": True}
 
 
 def run(ctx):
